@@ -521,7 +521,9 @@ class DualExec:
                 c = np.empty(a.shape, dtype=object)
                 for idx in np.ndindex(a.shape):
                     c[idx] = D.lift(a[idx]).const()
-                return c, True
+                # (the *flag rule* goes by the operand's own flag: a view forced non-constant on a constant chain is a
+                # non-constant operand although nothing flows through it)
+                return c, bool(self.const[o[1]])
             return a, False
         if o[0] == "py":
             return _obj(D(o[1])), True
